@@ -308,3 +308,71 @@ Proof.
   clear -R0 HR. revert R0. generalize (gen_init (table_of tt)). induction L0 as [|s L0 IH]; intros [|g G] R0; try discriminate; [exact HR|].
   cbn [reads_all app] in *. apply andb_prop in R0 as [A B]. rewrite A. exact (IH G B).
 Qed.
+
+
+(* ---------------------------------------------------------------- the WHOLE shipped TEMPLATEStateMachine.py *)
+From KV Require Import Proofs.EngineTps Proofs.Shipped16.
+
+Lemma py_file16_checked : shipped16 dict0 py_file = Some (render16 py_file16, py_file16).
+Proof. vm_compute. reflexivity. Qed.
+Lemma py_file16_opt_eq : py_file16_opt = Some py_file16.
+Proof. vm_compute. reflexivity. Qed.
+
+(* the last eight items of the file are the State Processing region, items 34 / 40 / 41 the constructor's behaviour-deciding lines *)
+Lemma py_file16_regions : skipn 79 py_file16 = py_proc16 /\ map (nth_error py_file16) [34; 40; 41] = map Some py_init16 /\ List.length py_file16 = 87.
+Proof. split; [|split]; vm_compute; reflexivity. Qed.
+
+Lemma ref_lines_proc e : flat_map (ref_item16 e) py_file16 = flat_map (ref_item16 e) (firstn 79 py_file16) ++ flat_map (ref_item16 e) py_proc16.
+Proof. rewrite <- (proj1 py_file16_regions). rewrite <- flat_map_app, firstn_skipn. reflexivity. Qed.
+
+(* the process region only looks at the transitions-per-state structure of the element record *)
+Lemma proc_lines_tps e1 e2 : el_tps e1 = el_tps e2 -> flat_map (ref_item16 e1) py_proc16 = flat_map (ref_item16 e2) py_proc16.
+Proof. intros H. rewrite py_proc16_shape. cbn [flat_map ref_item16]. rewrite H. reflexivity. Qed.
+
+Lemma init_lines_first e1 e2 : el_first e1 = el_first e2 -> flat_map (ref_item16 e1) py_init16 = flat_map (ref_item16 e2) py_init16.
+Proof. intros H. rewrite py_init16_shape. cbn [flat_map ref_item16]. rewrite H. reflexivity. Qed.
+
+(* For EVERY table, interface, oracle of signature strings and assignment of user tags admitted for the file (py_file_wf, computed): what
+   smgen.Generate's pipeline writes from the WHOLE shipped TEMPLATEStateMachine.py is the reference expansion of the file; its text is
+   Lpre ++ L where L, the expansion of the last eight items, reads line by line as the process part of gen_py, and items 34 / 40 / 41 expand to
+   the lines that read as the constructor part. *)
+Theorem py_file_engine (tt : list EngineSM.row) (structs protos msgs : list string) (m : smodel) (sigs : list (string * (string * string))) (a : usertags) :
+  tt_model tt structs protos msgs = Some m -> py_file_wf tt structs protos msgs sigs a = true ->
+  generate_file (with_sigs sigs m) dict0 a py_file = Some (py_file_ref tt structs protos msgs sigs a)
+  /\ exists Lpre L L0,
+       flat_map (ref_item16 (py_elements tt structs protos msgs sigs a)) py_file16 = Lpre ++ L
+       /\ reads_all "X" L (gen_proc (table_of tt)) = true
+       /\ L0 = flat_map (ref_item16 (py_elements tt structs protos msgs sigs a)) (flat_map (fun k => match nth_error py_file16 k with Some it => [it] | None => [] end) [34; 40; 41])
+       /\ reads_all "X" L0 (gen_init (table_of tt)) = true.
+Proof.
+  intros Hm Hw. split.
+  - unfold py_file_ref, py_file_wf, py_elements in *. rewrite py_file16_opt_eq in Hw.
+    rewrite <- (model_elements_full tt structs protos msgs m Hm). rewrite <- (model_elements_full tt structs protos msgs m Hm) in Hw.
+    change (with_evsigs sigs (elements_of_model m)) with (elements_of_model (with_sigs sigs m)) in *.
+    exact (shipped_output_user py_file (render16 py_file16) py_file16 py_file16_checked (with_sigs sigs m) a Hw).
+  - set (e := py_elements tt structs protos msgs sigs a).
+    exists (flat_map (ref_item16 e) (firstn 79 py_file16)), (flat_map (ref_item16 e) py_proc16).
+    exists (flat_map (ref_item16 e) py_init16). split; [apply ref_lines_proc|]. split; [|split].
+    + rewrite (proc_lines_tps e (elements_of (table_of tt) structs protos msgs) eq_refl). apply py_ref_reads_b.
+    + assert (E : flat_map (fun k => match nth_error py_file16 k with Some it => [it] | None => [] end) [34; 40; 41] = py_init16) by (vm_compute; reflexivity).
+      rewrite E. reflexivity.
+    + rewrite (init_lines_first e (elements_of (table_of tt) structs protos msgs) eq_refl). apply py_init_reads.
+Qed.
+
+(* C08_sem over the whole file *)
+Theorem py_sem_engine_whole (tt : list EngineSM.row) (structs protos msgs : list string) (m : smodel) (sigs : list (string * (string * string))) (a : usertags) :
+  tt_model tt structs protos msgs = Some m -> py_file_wf tt structs protos msgs sigs a = true -> wf_table (table_of tt) = true -> forall evs gv,
+  exists Lpre L L0 prog,
+    generate_file (with_sigs sigs m) dict0 a py_file = Some (concat_lines (map tab4 (Lpre ++ L)))
+    /\ reads_all "X" L (gen_proc (table_of tt)) = true
+    /\ L0 = flat_map (ref_item16 (py_elements tt structs protos msgs sigs a)) (flat_map (fun k => match nth_error py_file16 k with Some it => [it] | None => [] end) [34; 40; 41])
+    /\ reads_all "X" L0 (gen_init (table_of tt)) = true
+    /\ gen_py (table_of tt) = (gen_init (table_of tt) ++ gen_proc (table_of tt))%list
+    /\ parse_indent (gen_py (table_of tt)) = Some prog
+    /\ run_py prog evs gv = Some (table_interp (table_of tt) evs gv).
+Proof.
+  intros Hm Hw Hwf evs gv. destruct (py_file_engine tt structs protos msgs m sigs a Hm Hw) as (G & Lpre & L & L0 & E & R & E0 & R0).
+  destruct (py_sem (table_of tt) Hwf evs gv) as (prog & HP & HRun).
+  exists Lpre, L, L0, prog. split; [|split; [exact R|split; [exact E0|split; [exact R0|split; [apply gen_py_split|split; [exact HP|exact HRun]]]]]].
+  rewrite G. unfold py_file_ref, ref16. rewrite E. reflexivity.
+Qed.
